@@ -53,6 +53,21 @@ fn crc56(message: &[u32]) -> u32 {
     data >> 8
 }
 
+/// Parity check of the squitter formats, which carry PI instead of AP
+///
+/// A DF17/DF18 frame is intact when the CRC-24 remainder of the whole frame is zero,
+/// a DF11 frame when the upper 17 bits of it are (the lower 7 carry the interrogator code).
+/// Other formats overlay the address on the parity and cannot be checked here.
+pub(crate) fn parity_ok(message: &[u32]) -> bool {
+    let len = (message.len() * 4) as u32;
+    let syndrome = |df| range_value(message, len - 23, len).map(|pi| pi ^ get_crc(message, df));
+    match crate::get_downlink_format(message) {
+        Some(df @ (17 | 18)) => syndrome(df) == Some(0),
+        Some(11) => syndrome(11).is_some_and(|s| s & 0xFFFF80 == 0),
+        _ => true,
+    }
+}
+
 /// Calculate the reminder of the message
 ///
 /// # Arguments
